@@ -398,11 +398,18 @@ def table_definition_ok(fb, body, allp, table, field):
                 if isinstance(s_, Closure) and s_.path in fb.bodies:
                     cb = fb.bodies[s_.path]
                     ps = [q for q in Interp(fb, _P()).run(cb, [s_] + [Sym("o")] * (cb["arg_count"] - 1)) if q.status == "return"]
-                    if len(ps) == 1 and isinstance(ps[0].result, Tup):
-                        el = [rel.cstr(e) for e in ps[0].result.elems]
-                        want_i = int(field[1:]) if field[1:].isdigit() else None
+                    res_ = ps[0].result if len(ps) == 1 else None
+                    if isinstance(res_, Tup) or (isinstance(res_, Variant) and res_.variant is None and res_.fields):
+                        # a tuple, or a small private struct with named fields
+                        if isinstance(res_, Tup):
+                            el = [rel.cstr(e) for e in res_.elems]
+                            want_i = int(field[1:]) if field[1:].isdigit() else None
+                            flag = el[want_i] if want_i is not None and want_i < len(el) else None
+                        else:
+                            el = [rel.cstr(e) for e in res_.fields.values()]
+                            flag = rel.cstr(res_.fields[field[1:]]) if field[1:] in res_.fields else None
                         has = {"prio": any(re.search(r"\.prio\(\.op\(o\)\)$", e) for e in el), "idx": any(re.search(r"^\.idx\(o\)$", e) for e in el),
-                               "comm": want_i is not None and want_i < len(el) and re.search(r"\.is_commutative\(\.op\(o\)\)$", el[want_i]) is not None}
+                               "comm": flag is not None and re.search(r"\.is_commutative\(\.op\(o\)\)$", flag) is not None}
                         src = show(v)
                         if all(has.values()) and ".ops(.bin_ops(" in src:
                             return True, str(el)
